@@ -447,3 +447,35 @@ Print Assumptions C12_default_orfs_text.
 
 Example C12_witness_is_orf_text : is_orf_text (bs "CCATGAAATAAC"%bs) 2 2 11.
 Proof. exact is_orf_text_witness. Qed.
+
+(* "in every mode the reported intervals lie inside the sequence, respect minlen" for EVERY rf form -- also tuples that repeat
+   a frame (second passes read the popped lists), frames outside -3..2, any safe gap set, custom codon sets: the call either
+   raises the documented error class (rf form) or returns a list satisfying the invariants *)
+Theorem C12_any_rf_invariants : forall gap start stop rf ns need_stop minlen s,
+  gap_safe (gap_set gap) = true -> words_ok (gap_set gap) (pat_words start) = true -> words_ok (gap_set gap) (pat_words stop) = true ->
+  match rf with
+  | RAspec r => exists l, find_orfs_any gap start stop rf ns need_stop minlen s = XOk l /\
+      Forall (fun o => 0 <= o_start o /\ o_start o < o_stop o /\ o_stop o <= Z.of_nat (length s) /\
+                       minlen <= o_stop o - o_start o /\ In (o_rf o) (frames_of r) /\ o_plus o = (o_rf o >=? 0)) l
+  | RAbadstr => find_orfs_any gap start stop rf ns need_stop minlen s = XErr (bs "AssertionError"%bs)
+  | _ => find_orfs_any gap start stop rf ns need_stop minlen s = XErr (bs "TypeError"%bs)
+  end.
+Proof. exact any_rf_invariants. Qed.
+Print Assumptions C12_any_rf_invariants.
+
+(* default settings and ANY tuple of frames: a frame that is requested again contributes nothing the second time (its start
+   list or its stop list is exhausted), so the result is that of the tuple without the repetitions (first occurrences kept) --
+   with C12_rf_forms and C12_default_is_orf the default-settings clause holds for every requested frame tuple *)
+Theorem C12_default_any_frames : forall g sw pw minlen s frames,
+  gap_safe g = true -> words_ok g sw = true -> words_ok g pw = true ->
+  orfs_frames_st g sw pw NSAlways true minlen s [] frames = orfs_frames_x g sw pw NSAlways true minlen s (dedup_from [] frames).
+Proof. exact default_any_frames. Qed.
+Print Assumptions C12_default_any_frames.
+
+Example C12_witness_repeated :
+  find_orfs_any (Some (bs "-"%bs)) (bs "start"%bs) (bs "stop"%bs) (RAspec (RFtuple [0; 0])) NSNever false 0 (bs "CCATGAAATAAC"%bs) =
+    XOk [mkorf 0 6 true 0; mkorf 6 12 true 0; mkorf 0 12 true 0] /\
+  find_orfs_any (Some (bs "-"%bs)) (bs "start"%bs) (bs "stop"%bs) (RAspec (RFtuple [2; 0; 2])) NSAlways true 0 (bs "CCATGAAATAAC"%bs) =
+    XOk [mkorf 2 11 true 2] /\
+  dedup_from [] [2; 0; 2; 0; -1] = [2; 0; -1].
+Proof. exact (conj eq_refl (conj eq_refl eq_refl)). Qed.
